@@ -352,6 +352,8 @@ def batch(arg):
     if arg["mode"] == "enum":
         trees = enum_numeric(arg["depth"], arg["leaves"])
         trees = trees[arg["lo"]:arg["hi"]]
+    elif arg["mode"] == "spine":
+        trees = enum_spines()[arg["lo"]:arg["hi"]]
     else:
         trees = []
         for _ in range(arg["count"]):
@@ -424,7 +426,7 @@ def batch(arg):
         # (c) value
         try:
             val = ev(t)
-            if arg["mode"] != "enum" or not arg.get("value_sample") or \
+            if arg["mode"] == "rand" or not arg.get("value_sample") or \
                     (hash(show(t)) % arg["value_sample"]) == 0:
                 cases.append((t, text, val))
         except Undefined:
@@ -542,10 +544,33 @@ def run_chunk(wd, chunk, part, single=False):
     return True
 
 
+def enum_spines():
+    """Left-nested operator chains of length 2..3 whose left-most leaf carries
+    a unary operator, in every context (right / left operand of a binary
+    operator, operand of a unary operator, top level): depth 4-6 trees that
+    the depth-3 enumeration cannot reach."""
+    leaves = [("leaf", "b"), ("leaf", "a"), ("leaf", "2"), ("leaf", "a")]
+    out = []
+    import itertools
+    for n in (2, 3):
+        for ops in itertools.product(NUM_BIN, repeat=n):
+            for un in ("MINUS", "PLUS", None):
+                t = leaves[0] if un is None else ("un", un, leaves[0])
+                for k, op in enumerate(ops):
+                    t = ("bin", op, t, leaves[1 + k % 3])
+                out.append(t)
+                for ctx_op in NUM_BIN:
+                    out.append(("bin", ctx_op, ("leaf", "a"), t))
+                    out.append(("bin", ctx_op, t, ("leaf", "a")))
+                out.append(("un", "MINUS", t))
+                out.append(("un", "PLUS", t))
+    return list(dict.fromkeys(out))
+
+
 def main(ctx):
     ctx.rule = ("numeric trees over {+,-,*,/,**, unary -,+} enumerated "
                 "exhaustively to depth 3 over leaves {a, 2, b} (quick) / "
-                "{a, b, 2, i} (thorough), plus random trees to depth 5/6 "
+                "{a, b, 2, i} (thorough), 5475 left-nested operator chains of length 2-3 with a unary left-most leaf in every context (depth 4-6), plus random trees to depth 5/6 "
                 "with relational and logical operators, intrinsic calls, "
                 "array and integer operands; a case is non-trivial if it is "
                 "not a bare leaf; distinct by tree")
@@ -560,6 +585,11 @@ def main(ctx):
         jobs.append({"mode": "enum", "depth": 3, "leaves": leaves, "lo": lo,
                      "hi": min(total, lo + chunk), "seed": 0,
                      "value_sample": 5 if ctx.quick else 0})
+    nsp = len(enum_spines())
+    ctx.extra["enumerated_spines"] = nsp
+    for lo in range(0, nsp, 400):
+        jobs.append({"mode": "spine", "lo": lo, "hi": min(nsp, lo + 400),
+                     "seed": 0, "value_sample": 5 if ctx.quick else 0})
     nb = 24 if ctx.quick else 160
     for i in range(nb):
         jobs.append({"mode": "rand", "count": 160 if ctx.quick else 1500,
